@@ -35,6 +35,9 @@ abbrev Cfg (n : Nat) := Fin n → Bool
 /-- `to_pm1(x)`: `x.mul(2.0).sub(1.0)` (observables/utils.py:16-24) -/
 def toPm1 (x : α) : α := x * two - 1
 
+/-- `to_01(x)`: `x.add(1.0).div(2.0)` (observables/utils.py:26-33) -/
+def to01 (x : α) : α := (x + 1) / two
+
 /-- spin value of a bit in the library's convention `0 ↦ −1, 1 ↦ +1`: `to_pm1` of the 0/1 entry -/
 def spin (b : Bool) : α := toPm1 (bit b)
 
